@@ -9,7 +9,7 @@ kind = sys.argv[1]
 tmp = tempfile.mkdtemp(prefix="bn-")
 try:
     shutil.copytree("/repo/asl-workflow-engine", os.path.join(tmp, "asl-workflow-engine"), ignore=shutil.ignore_patterns("__pycache__", "*.pyc"))
-    n = {"reformat": variants.reformat, "rename": variants.rename_locals, "noise": variants.noise}[kind](tmp)
+    n = {"reformat": variants.reformat, "rename": variants.rename_locals, "noise": variants.noise, "swap": variants.swap_independent}[kind](tmp)
     print("transformation %s applied (%d items)" % (kind, n))
     if "--suite" in sys.argv:
         p = subprocess.run("/venv/bin/python -m pytest -q -p no:cacheprovider --timeout=900 2>&1 | tail -1", shell=True, cwd=tmp, stdout=subprocess.PIPE, text=True)
